@@ -97,6 +97,12 @@ def builders(f, rep):
                 continue
             n_builders += 1; rep.spec_entries['spec'] += 1
             want = table[name]
+            if any(fld not in pre.fields for fld in want):
+                # the private state no longer has the specified field (a flag word kept as separate bools and combined when
+                # serialising, ...): the field is what the structure emits at the field's place, and "writes nothing else"
+                # is "no other emitted byte changes"
+                _emission_mode(f, rep, I, ty, name, b, subj, want, pre, post, P)
+                continue
             extra = sorted(set(_top(eff)) - set(want)); missing = sorted(set(want) - set(_top(eff)))
             rep.ob('write-set', subj, not extra and not missing, '%s writes %s; the option governs %s' % (name, sorted(_top(eff)), sorted(want)), sp=b['sp'],
                    detail={'writes': sorted(eff), 'specified': sorted(want)})
@@ -117,6 +123,52 @@ def builders(f, rep):
             rep.ob('contradiction', '%s.%s|%#x' % (ty, fld, mask), len(set(methods)) == 1, 'options %s of %s all or %#x into %s: they are indistinguishable in the output' % (sorted(set(methods)), ty, mask, fld))
     return n_builders
 
+def _field_places(f, ty):
+    """{field: (offset term, width)} of the setter-filled fields of `ty` in its specified layout (spec/layouts.py)"""
+    import layouts as L
+    from layout_cmp import build, tagged_positions
+    out = {}
+    for (t_, c_), sp in L.STRUCTS.items():
+        if t_ != ty: continue
+        exp, tags = build(sp['items'], {})
+        for p_, s_, tg in tagged_positions(exp, tags):
+            if isinstance(tg, tuple) and tg[0] == 'setter' and s_[0] == 'int': out[tg[1]] = (p_, s_[2])
+    return out
+
+def _emission_mode(f, rep, I, ty, name, b, subj, want, pre, post, P):
+    from rules.C03 import seg_at_term
+    places = _field_places(f, ty)
+    if f.method('Aml', ty, 'to_aml_bytes') is None or any(fld not in places for fld in want):
+        rep.undecided('effect', subj, [('the specified field is not part of the state and has no place in a specified layout', b['sp'])], b['sp']); return
+    n0 = len(I.tops)
+    E0 = emit_value(I, pre, ty); E1 = emit_value(I, post, ty)
+    if E0 is None or E1 is None or len(I.tops) != n0: rep.undecided('effect', subj, I.tops[n0:] or [('not serialisable', b['sp'])], b['sp']); return
+    facts = [c for c, _ in I.st.facts]
+    def masked(E):
+        lst, _ = with_offsets(list(E)); out = []
+        for p_, s_ in lst:
+            hit = [fld for fld in want if places[fld][0] == p_]
+            if hit and s_[0] == 'int' and s_[2] >= places[hit[0]][1]: out.append(('int', ZERO, s_[2]))
+            else: out.append(s_)
+        return out
+    ok_ws, why = segs_equal(masked(E0), masked(E1), facts)
+    rep.ob('write-set', subj, ok_ws, '%s changes emitted bytes outside the field(s) %s it governs: %s' % (name, sorted(want), why), sp=b['sp'], detail={'mode': 'emission', 'specified': sorted(want)})
+    for fld, eff_spec in want.items():
+        pos, w = places[fld]
+        g0 = seg_at_term(E0, pos, w); g1 = seg_at_term(E1, pos, w)
+        if g0 is None or g1 is None or g0[0] != 'int' or g1[0] != 'int':
+            rep.ob('update', '%s.%s' % (subj, fld), False, 'no %d-byte field at offset %s of the emission' % (w, show(pos)), sp=b['sp']); continue
+        o = strip_trunc(g0[1]); got = strip_trunc(g1[1]); kind_ = eff_spec[0]
+        if kind_ == 'or': exp = bor(o, C(eff_spec[1]))
+        elif kind_ == 'orterm': exp = bor(o, eff_spec[1](P))
+        elif kind_ == 'set': exp = eff_spec[1](P)
+        elif kind_ == 'or_if': exp = ite(eff_spec[1](P), bor(o, C(eff_spec[2])), o)
+        else:
+            rep.undecided('effect', subj, [('option kind %s in emission mode' % kind_, b['sp'])], b['sp']); continue
+        ok = equal(got, strip_trunc(exp), facts)[0]
+        rep.ob('update', '%s.%s' % (subj, fld), ok, 'after %s, the %s field emitted is %s; specified %s' % (name, fld, show(got), show(exp)), sp=b['sp'],
+               detail={'field': fld, 'mode': 'emission', 'after': show(got), 'specified': show(exp)})
+
 def rest(f, rep):
     # ---- constructor-time options
     for (ty, ctor), fields in sorted(SPEC.CTOR_OPTIONS.items()):
@@ -129,6 +181,12 @@ def rest(f, rep):
         if I.tops or not isinstance(st, StructV): rep.undecided('ctor-option', subj, I.tops, cb['sp']); continue
         for fld, fn in fields.items():
             got = st.fields.get(fld); exp = fn(P)
+            if got is None and f.method('Aml', ty, 'to_aml_bytes') is not None and fld in _field_places(f, ty):
+                # the field is not part of the private state: it is what the fresh structure emits at the field's place
+                from rules.C03 import seg_at_term
+                E_ = emit_value(I, st, ty); pos_, w_ = _field_places(f, ty)[fld]
+                g_ = seg_at_term(E_, pos_, w_) if E_ is not None and not I.tops else None
+                got = strip_trunc(g_[1]) if g_ is not None and g_[0] == 'int' else None
             ok = is_term(got) and equal(strip_trunc(got), exp)[0]
             rep.ob('ctor-option', subj + '.' + fld, ok, '%s sets %s to %s; specified %s' % (ctor, fld, show(got) if is_term(got) else got, show(exp)), sp=cb['sp'],
                    detail={'value': show(got) if is_term(got) else repr(got), 'specified': show(exp)})
